@@ -1,3 +1,220 @@
-import PGA.Model.Pipeline
+import PGA.Proofs.Pipeline
+import PGA.Proofs.PipelineKeys
+import PGA.Props.C07
+import PGA.Props.C19
+import PGA.Props.C20
+/-!
+# The pipeline `lib.Estimate(lib.GetDescriptors(x), 'thermochem').get_X(T)` — composition theorems
+
+What a user of pgradd relies on is the *composition* of the layers that C01–C04, C07, C19, C20 decide one by one.
+`PGA.Pipeline.pipeline reg S lib m set` (`PGA/Model/Pipeline.lean`) is that composition — `decompose S m`, then
+`estimate` over the resulting dictionary with string keys — and the theorems below are about it, for every scheme,
+library, molecule graph and temperature:
+
+* `PIPE_value_depends_on_counts_only` — an estimate sees a dictionary only through the count of each name;
+* `PIPE_relabel_invariant` (C03 ∘ C01) — renumbering the atoms changes nothing of the outcome;
+* `PIPE_mixture_additive`, `PIPE_mixture_failure`, `PIPE_mixture_range`, `PIPE_mixture_quadratic` (C04 ∘ C01/C20) —
+  `A ⊔ B`: values add up, failures propagate stage by stage, the range is the intersection, `xᵀMx` gets a cross term;
+* `PIPE_spelling_*` (C19 ∘ C14/C01) — how a library file spells a group does not matter, how a *string key* spells it does;
+* `PIPE_dimensional_*` (∘ C07) — all of the above for `H`, `G`, `S`, `Cp` in units.
+-/
 namespace PGA.Pipeline
+open PGA PGA.Spec PGA.Scheme PGA.Decompose PGA.Match PGA.Estimate
+
+/-! ### vocabulary -/
+
+/-- two getter results do not contradict each other: where both are values, they are the same value -/
+def Agree (a b : Val) : Prop := ∀ v v', a = .ok v → b = .ok v' → v = v'
+
+/-- the same value, or both fail -/
+def SameVal (a b : Val) : Prop := ∀ v, a = .ok v ↔ b = .ok v
+
+/-- `u` is a value exactly when `a` and `b` are, and then it is their sum -/
+def SumVal (u a b : Val) : Prop := ∀ v, u = .ok v ↔ ∃ x y, a = .ok x ∧ b = .ok y ∧ v = x + y
+
+/-- two correlation objects return the same `Cp/R`, `H/RT`, `S/R` (for every temperature and `S_elements` flag) -/
+structure NDSame (o o' : ND) : Prop where
+  cp : ∀ T, SameVal (o.cp T) (o'.cp T)
+  hort : ∀ T, SameVal (o.hort T) (o'.hort T)
+  sor : ∀ T flag, SameVal (o.sor T flag) (o'.sor T flag)
+
+/-- `oU = oA + oB` for `Cp/R`, `H/RT`, `S/R` -/
+structure NDSum (oU oA oB : ND) : Prop where
+  cp : ∀ T, SumVal (oU.cp T) (oA.cp T) (oB.cp T)
+  hort : ∀ T, SumVal (oU.hort T) (oA.hort T) (oB.hort T)
+  sor : ∀ T flag, SumVal (oU.sor T flag) (oA.sor T flag) (oB.sor T flag)
+
+/-- Two pipeline outcomes are the same as far as the caller can tell: the same failure (a missing-data error naming the
+same descriptors, possibly in another order), or estimates with the same validity range and the same values. -/
+structure SameOutcome (sel : Nat → Option Rat) (r r' : Except Err Estimator) : Prop where
+  patternMatch : r' = .error .patternMatch ↔ r = .error .patternMatch
+  estimateError : ∀ err, r = .error (.estimate err) →
+    ∃ err', r' = .error (.estimate err') ∧ estKind err' = estKind err ∧
+      ∀ ds, err = .missing ds → ∃ ds', err' = .missing ds' ∧ ds'.Perm ds
+  estimate : ∀ e, r = .ok e → ∃ e', r' = .ok e' ∧ e'.range = e.range ∧ NDSame (e.toND sel) (e'.toND sel)
+
+/-! ### an estimate sees a dictionary through its counts only -/
+
+/-- **Counts only, any datum.** Two dictionaries (distinct keys) giving every name the same count — the entries may come
+in any order, and a name may be listed with the count 0 in one and be absent from the other: if `Estimate` succeeds for
+both, no datum of the two estimates can differ.  If moreover the same names are listed, each datum exists for one exactly
+when it exists for the other. -/
+theorem PIPE_wsum_depends_on_counts_only (get : Corr → Val) (reg : List String) (lib : Lib) (c c' : Counts) (s : String)
+    (e e' : Estimator) (hc : (Counts.keys c).Nodup) (hc' : (Counts.keys c').Nodup) (hget : ∀ k, c.get k = c'.get k)
+    (he : estimate reg lib c s = .ok e) (he' : estimate reg lib c' s = .ok e') :
+    Agree (wsum get e.correlations) (wsum get e'.correlations) ∧
+    ((∀ k, k ∈ Counts.keys c ↔ k ∈ Counts.keys c') → SameVal (wsum get e.correlations) (wsum get e'.correlations)) := by
+  constructor
+  · intro v v' hv hv'
+    rw [C01_value_iff get reg lib c s e he] at hv
+    rw [C01_value_iff get reg lib c' s e' he'] at hv'
+    rw [hv.2, hv'.2]
+    exact specEstimate_congr lib s get c c' hc hc' hget
+  · intro hk v
+    have hp := counts_perm c c' hc hc' hk hget
+    exact (wsum_perm _ (perm_terms reg lib s e e' hp he he').1 v).symm
+
+/-- **Counts only: `H/RT`, `Cp/R`, `S/R` (entropy not taken relative to the elements) at every temperature.**
+Same hypotheses as above.  `C01_perm_*` (order), `C01_merge_counts`, `C01_zero_count` are instances. -/
+theorem PIPE_value_depends_on_counts_only (reg : List String) (lib : Lib) (c c' : Counts) (s : String)
+    (e e' : Estimator) (hc : (Counts.keys c).Nodup) (hc' : (Counts.keys c').Nodup) (hget : ∀ k, c.get k = c'.get k)
+    (he : estimate reg lib c s = .ok e) (he' : estimate reg lib c' s = .ok e') (T : Rat) :
+    Agree (e.HoRT T) (e'.HoRT T) ∧ Agree (e.CpoR T) (e'.CpoR T) ∧
+    (∀ sel flag, flag.truthy = false → Agree (e.SoR sel T flag) (e'.SoR sel T flag)) ∧
+    ((∀ k, k ∈ Counts.keys c ↔ k ∈ Counts.keys c') →
+      SameVal (e.HoRT T) (e'.HoRT T) ∧ SameVal (e.CpoR T) (e'.CpoR T) ∧
+      ∀ sel flag, SameVal (e.SoR sel T flag) (e'.SoR sel T flag)) := by
+  refine ⟨(PIPE_wsum_depends_on_counts_only (·.hort T) reg lib c c' s e e' hc hc' hget he he').1,
+    (PIPE_wsum_depends_on_counts_only (·.cp T) reg lib c c' s e e' hc hc' hget he he').1, ?_, ?_⟩
+  · intro sel flag hf
+    rw [SoR_plain sel e T flag hf, SoR_plain sel e' T flag hf]
+    exact (PIPE_wsum_depends_on_counts_only (·.sor T) reg lib c c' s e e' hc hc' hget he he').1
+  · intro hk
+    have hp := counts_perm c c' hc hc' hk hget
+    exact ⟨fun v => C01_perm_H reg lib s e e' T v hp he he', fun v => C01_perm_Cp reg lib s e e' T v hp he he',
+      fun sel flag v => C01_perm_S reg lib s e e' T v sel flag hp he he'⟩
+
+/-- **Counts only: whether there is an estimate at all.** With the same names listed (and the same counts), `Estimate`
+succeeds for one dictionary exactly when it does for the other, fails at the same stage, and a missing-data error names
+the same descriptors. -/
+theorem PIPE_outcome_depends_on_counts_only (reg : List String) (lib : Lib) (c c' : Counts) (s : String)
+    (hc : (Counts.keys c).Nodup) (hc' : (Counts.keys c').Nodup) (hget : ∀ k, c.get k = c'.get k)
+    (hk : ∀ k, k ∈ Counts.keys c ↔ k ∈ Counts.keys c') :
+    kindOf (estimate reg lib c' s) = kindOf (estimate reg lib c s) ∧
+    ∀ ds, estimate reg lib c s = .error (.missing ds) → ∃ ds', estimate reg lib c' s = .error (.missing ds') ∧ ds'.Perm ds :=
+  estimate_perm_kind reg lib s (counts_perm c c' hc hc' hk hget)
+
+/-! #### non-vacuity: one name listed with the count 0 / absent, two names in either order -/
+namespace ExCounts
+def cA : Corr := ⟨fun _ => .ok 2, fun T => .ok (T / 100), fun _ => .ok (1/2), some (100, 1000)⟩
+def cB : Corr := ⟨fun _ => .ok 1, fun _ => .ok (-3), fun _ => .ok 4, some (200, 1500)⟩
+def lib : Lib := ⟨[("a", [("thermochem", cA)]), ("b", [("thermochem", cB)]), ("z", [("thermochem", cA)])], none, none⟩
+def c₁ : Counts := [("a", 2), ("z", 0), ("b", 1/2)]
+def c₂ : Counts := [("b", 1/2), ("a", 2)]
+example : (Counts.keys c₁).Nodup ∧ (Counts.keys c₂).Nodup := by decide
+example : ∀ k, c₁.get k = c₂.get k := by
+  intro k
+  simp only [c₁, c₂, Counts.get]
+  by_cases ha : "a" = k
+  · subst ha; simp
+  · by_cases hz : "z" = k
+    · subst hz; simp
+    · by_cases hb : "b" = k
+      · subst hb; simp
+      · simp [ha, hz, hb]
+def hAt (c : Counts) (T : Rat) : Option Rat :=
+  match estimate ["thermochem"] lib c "thermochem" with
+  | .ok e => (match e.HoRT T with | .ok v => some v | .error _ => none)
+  | .error _ => none
+example : hAt c₁ 300 = some (9/2) ∧ hAt c₂ 300 = some (9/2) := by decide +kernel
+end ExCounts
+
+/-! ### C03 ∘ C01 — renumbering the atoms -/
+
+/-- the estimate on record under another molecule: only the elemental term can tell -/
+theorem withName_HoRT (nm : Option (List Nat)) (e : Estimator) (T : Rat) : (withName nm e).HoRT T = e.HoRT T := rfl
+theorem withName_CpoR (nm : Option (List Nat)) (e : Estimator) (T : Rat) : (withName nm e).CpoR T = e.CpoR T := rfl
+
+/-- the elemental term of two atom lists that are reorderings of each other -/
+theorem selements_perm (sel : Nat → Option Rat) {a a' : List Nat} (h : a.Perm a') (v : Rat) :
+    selements sel (some a) = .ok v ↔ selements sel (some a') = .ok v := by
+  rw [C07_selements, C07_selements, (h.map (selD sel)).sum_eq]
+  constructor
+  · rintro ⟨h1, h2⟩; exact ⟨fun z hz => h1 z (h.mem_iff.mpr hz), h2⟩
+  · rintro ⟨h1, h2⟩; exact ⟨fun z hz => h1 z (h.mem_iff.mp hz), h2⟩
+
+/-- **Core of the invariance theorems.** If two molecules decompose to dictionaries that list the same entries in possibly
+different orders, and carry the same atoms in possibly different orders, the pipeline cannot tell them apart. -/
+theorem sameOutcome_of_perm (sel : Nat → Option Rat) (reg : List String) (S : SchemeDef) (lib : Lib) (set : String)
+    (m m' : Mol) (hpm : decompose S m' = .error .patternMatch ↔ decompose S m = .error .patternMatch)
+    (hperm : ∀ c c', decompose S m = .ok c → decompose S m' = .ok c' → c.Perm c')
+    (hatoms : (atomsOf m).Perm (atomsOf m')) :
+    SameOutcome sel (pipeline reg S lib m set) (pipeline reg S lib m' set) := by
+  have hdec : ∀ c, decompose S m = .ok c → ∃ c', decompose S m' = .ok c' ∧ c.Perm c' := by
+    intro c hc
+    cases hc' : decompose S m' with
+    | error e =>
+      cases e
+      have := hpm.mp hc'
+      rw [hc] at this; cases this
+    | ok c' => exact ⟨c', rfl, hperm c c' hc hc'⟩
+  refine ⟨?_, ?_, ?_⟩
+  · rw [pipeline_patternMatch_iff, pipeline_patternMatch_iff]; exact hpm
+  · intro err herr
+    obtain ⟨c, hc, he⟩ := (pipeline_esterr_iff reg S lib m set err).mp herr
+    obtain ⟨c', hc', hp⟩ := hdec c hc
+    obtain ⟨hk, hmiss⟩ := estimate_perm_kind reg lib set hp
+    cases he' : estimate reg lib c' set with
+    | ok e' => rw [he, he'] at hk; cases hk
+    | error err' =>
+      refine ⟨err', (pipeline_esterr_iff reg S lib m' set err').mpr ⟨c', hc', he'⟩, ?_, ?_⟩
+      · rw [he, he'] at hk
+        simpa [kindOf] using hk
+      · rintro ds rfl
+        obtain ⟨ds', h1, h2⟩ := hmiss ds he
+        rw [he'] at h1
+        cases h1
+        exact ⟨ds', rfl, h2⟩
+  · intro e hok
+    obtain ⟨c, e0, hc, he0, rfl⟩ := (pipeline_ok_iff reg S lib m set e).mp hok
+    obtain ⟨c', hc', hp⟩ := hdec c hc
+    obtain ⟨e0', he0', hcorr, _, hrange⟩ := estimate_perm reg lib set e0 hp he0
+    refine ⟨withName (some (atomsOf m')) e0', (pipeline_ok_iff reg S lib m' set _).mpr ⟨c', e0', hc', he0', rfl⟩, hrange, ?_⟩
+    refine ⟨fun T v => ?_, fun T v => ?_, fun T flag v => ?_⟩
+    · exact C01_perm_Cp reg lib set e0 e0' T v hp he0 he0'
+    · exact C01_perm_H reg lib set e0 e0' T v hp he0 he0'
+    · show (withName (some (atomsOf m)) e0).SoR sel T flag = .ok v ↔ (withName (some (atomsOf m')) e0').SoR sel T flag = .ok v
+      rw [SoR_ok_iff, SoR_ok_iff]
+      have hw : ∀ s, wsum (·.sor T) e0.correlations = .ok s ↔ wsum (·.sor T) e0'.correlations = .ok s :=
+        fun s => (wsum_perm _ hcorr s).symm
+      show (∃ sele s, (if flag.truthy then selements sel (some (atomsOf m)) else .ok 0) = .ok sele ∧
+          wsum (·.sor T) e0.correlations = .ok s ∧ v = s - sele) ↔
+        (∃ sele s, (if flag.truthy then selements sel (some (atomsOf m')) else .ok 0) = .ok sele ∧
+          wsum (·.sor T) e0'.correlations = .ok s ∧ v = s - sele)
+      by_cases hf : flag.truthy = true
+      · simp only [hf, if_true, hw, selements_perm sel hatoms]
+      · simp only [hf, hw, Bool.false_eq_true, if_false]
+
+/-- **C03 ∘ C01: the pipeline does not see how the atoms are numbered.**  Under the hypotheses of `C03_decompose_relabel`
+— `m'` is `m` with its atoms renumbered by any bijection `π` (`MolIso π m m'`: atoms renamed; bonds renamed, in any order;
+rings renamed, in the same order), the graph well-formed, the scheme's queries well-formed (reader), no `*` suffix, every
+pattern's candidate count below the cap on both aromatised graphs, chain-free remap table — and for **every** library,
+registry and property-set name: `lib.Estimate(lib.GetDescriptors(m'), set)` has the same outcome as for `m` —
+`PatternMatchError` for one iff for the other; an `Estimate` error of the same stage for one iff for the other, a
+missing-data error naming the same descriptors; or two estimates with the same range and, at **every** temperature and for
+every `S_elements` flag, the same `Cp/R`, `H/RT`, `S/R` (a getter fails for one iff it fails for the other). -/
+theorem PIPE_relabel_invariant (sel : Nat → Option Rat) (reg : List String) (S : SchemeDef) (lib : Lib) (set : String)
+    {π : Nat → Nat} {m m' : Mol} (iso : MolIso π m m')
+    (hm : m.wf = true) (hq : S.wf = true) (hs : S.noStar = true)
+    (hcap : maxRaw S (aromatizeBenson m) < maxMatches) (hcap' : maxRaw S (aromatizeBenson m') < maxMatches)
+    (hcf : ChainFree S.remaps) :
+    SameOutcome sel (pipeline reg S lib m set) (pipeline reg S lib m' set) := by
+  have R := PGA.C03.C03_decompose_relabel S iso hm hq hs hcap hcap' hcf
+  apply sameOutcome_of_perm sel reg S lib set m m' R.1
+  · intro c c' hc hc'
+    exact counts_perm c c' (decompose_nodup S m c hc) (decompose_nodup S m' c' hc')
+      (fun k => (decompose_relabel_keys S iso hm hq hs hcap hcap' hcf c c' hc hc' k).symm)
+      (fun k => (R.2 c c' hc hc' k).symm)
+  · exact (iso.atoms_perm'.map (·.Z)).symm
+
 end PGA.Pipeline
